@@ -22,6 +22,8 @@ type ColSpec struct {
 	ValRefTable string  `json:"valRefTable,omitempty"`
 	ValRefType  string  `json:"valRefType,omitempty"`
 	Immutable   bool    `json:"immutable,omitempty"`
+	IsEnum      bool    `json:"enum,omitempty"`
+	EnumVals    []Atom  `json:"enumVals,omitempty"` // allowed key atoms of an enum column
 }
 
 type TableSpec struct {
@@ -68,6 +70,13 @@ func baseTypeJSON(t, refTable, refType string) interface{} {
 func (c ColSpec) typeJSON() interface{} {
 	ct := c.Type
 	key := baseTypeJSON(ct.Key, c.RefTable, c.RefType)
+	if c.IsEnum {
+		vals := []interface{}{}
+		for _, a := range c.EnumVals {
+			vals = append(vals, nativeOfAtom(a))
+		}
+		key = map[string]interface{}{"type": ct.Key, "enum": []interface{}{"set", vals}}
+	}
 	switch ct.Kind {
 	case "atom":
 		if _, ok := key.(string); ok {
